@@ -544,6 +544,18 @@ def run_property(modname, tier, seed, replay=None, n_override=None):
         gen_status = translate.regenerate(plugin.GEN_TARGETS)
         say("[%s] translator: %s" % (pid, "ok" if gen_status["ok"] else "FAILED " + gen_status["log"][-400:]))
 
+    # ---- 0b. has the code this property is anchored in been edited since the models were
+    #          last brought in line with it?  (information + a wider exploration, never an alarm)
+    src_changed = []
+    try:
+        from harness import sourcehash
+
+        src_changed = sourcehash.changed_files(pid)
+    except Exception as ex:  # pylint: disable=broad-except
+        say("[%s] source fingerprints unavailable: %s" % (pid, ex))
+    if src_changed:
+        say("[%s] anchored source differs from the recorded fingerprint: %s -> exploring 3x the cases" % (pid, ", ".join(src_changed)))
+
     # ---- 1. proofs
     hits = forbidden_scan()
     proofs = coq_check_props(plugin)
@@ -578,6 +590,8 @@ def run_property(modname, tier, seed, replay=None, n_override=None):
         n = n_override or plugin.N[tier]
         if not proofs["ok"] or binary is None:
             n *= 3  # violation search: widen the exploration
+        elif src_changed and not n_override:
+            n *= 3  # the modelled source was edited since it was last compared: look harder
         for c in plugin.gen(rng, tier):
             cases.append(c)
             if len(cases) >= n:
@@ -833,6 +847,7 @@ def run_property(modname, tier, seed, replay=None, n_override=None):
             "extra_checks": [{"name": n_, "ok": bool(o), "detail": str(d)[:600]} for n_, o, d in extra],
             "translator": gen_status.get("log", "")[-400:] if getattr(plugin, "GEN_TARGETS", None) else "not used by this property",
             "coqchk": coqchk if coqchk is not None else "run in the thorough tier only",
+            "anchored_source_changed_since_recorded": src_changed,
         },
         "assumptions": list(getattr(plugin, "ASSUMPTIONS", [])),
         "wall_s": round(time.time() - t0, 2),
